@@ -6,6 +6,7 @@ package maporder
 
 import (
 	"fmt"
+	"os"
 	"reflect"
 	"sort"
 	"strconv"
@@ -130,6 +131,8 @@ var Pinned = map[string]bool{}
 
 var unstable int64
 
+var debugSched = os.Getenv("VERIF_DEBUG_SCHED") != ""
+
 func keyString(k any) string {
 	switch x := k.(type) {
 	case string:
@@ -238,6 +241,13 @@ func Install(s *Schedule, rec *Recorder) {
 				h = tape.Mix(h, ks[p])
 			}
 			rec.Hash = h
+			if debugSched {
+				var out []string
+				for _, p := range perm {
+					out = append(out, ks[p])
+				}
+				fmt.Fprintf(os.Stderr, "SCHED %s %q\n", site, out)
+			}
 		}
 		return perm
 	}
